@@ -12,166 +12,41 @@
   invalidate); every clock reading, the eviction choices and the gc deletions are data in the ops, so the
   theorems hold for every interleaving of concurrent callers, every clock and every Go map order.
 
-  Main results
+  Main results (helper developments: SH/Lemmas/PCacheBase, PCacheExact, PCacheEvict, PCacheInt64)
     checkLevels_sound      the hour/minute/second recursion never misses a second of [from,to] (any positive
                            steps ending in 1, any utcOffset), given that coarse maps dominate the second map
                            on buckets not older than the gc high-water mark `g`
     run_good               that domination (+ "the second map remembers every invalidation ≥ g with its latest
                            clock") is an invariant of every history
+    run_tight              the converse invariant: every coarse entry is witnessed by a second of its bucket,
+                           every second-map entry is an invalidation of the history
     served_fresh           headline, first sentence of C24
     invalidated_is_reloaded  "otherwise it is reloaded"
+    stale_iff, served_iff  the two-sided form: stale ⟺ some second of [max(from, edge second), to] was
+                           invalidated late enough; the maps never over-invalidate
+    gc_never_changes_answers  invalidateLocked's deletions never change an answer inside the window
     immutable_served, served_rows_stored_by_load   second sentence ("served as loaded")
     store_load_bound, run_load_bound, cache_within_bound, cache_content_bounded   the size bound
-                           (the accounted size is bounded, and it dominates the real content)
-  Clock hypothesis: `served_fresh` needs the lookup's clock not to be behind the clock of an earlier
+    run_exact, needEvict_nonempty, evictLoop_no_hang, evictLoop_terminates, legal_pick_exists, size_bounded
+                           exact accounting, the `k == ""` corner, termination of the eviction loop
+    int64_preconditions, size_in_int64   where Int arithmetic is Go's int64 / time.Time arithmetic
+  Clock hypothesis: `served_fresh` / `stale_iff` need the lookup's clock not to be behind the clock of an earlier
   invalidate call (gc forgets seconds older than ITS edge). `clock_hypothesis_needed` shows by `decide` that
   without it the code does serve stale rows; a wall clock stepping back by more than the distance of a cached
   range to the 48 h edge is outside what the property can promise.
 -/
 import SH.Model.PCache
+import SH.Lemmas.PCacheBase
+import SH.Lemmas.PCacheExact
+import SH.Lemmas.PCacheEvict
+import SH.Lemmas.PCacheInt64
 import Mathlib.Tactic.Ring
 import Mathlib.Tactic.Linarith
 
 namespace SH.C24
 open SH.PCache SH.Gen.C24
 
-/-! ### association-list maps -/
-
-theorem mget_merase (m : LMap) (k k' : Int) : mget (merase m k) k' = if k = k' then none else mget m k' := by
-  induction m with
-  | nil => simp [merase, mget]
-  | cons p r ih =>
-    obtain ⟨a, v⟩ := p
-    by_cases h : a = k
-    · subst h; simp only [merase, if_true, ih]
-      by_cases h2 : a = k' <;> simp [mget, h2]
-    · simp only [merase, h, if_false, mget, ih]
-      by_cases h2 : a = k'
-      · subst h2; simp [h]; intro h3; exact absurd h3.symm h
-      · simp [h2]
-
-theorem mget_mput (m : LMap) (k v k' : Int) : mget (mput m k v) k' = if k = k' then some v else mget m k' := by
-  simp only [mput, mget, mget_merase]
-  by_cases h : k = k' <;> simp [h]
-
-/-- the value `bump` leaves under the key it touches -/
-def newVal (m : LMap) (k a : Int) : Int :=
-  match mget m k with
-  | some last => if a > last then a else last
-  | none => a
-
-theorem mget_bump (m : LMap) (k a k' : Int) : mget (bump m k a) k' = if k = k' then some (newVal m k a) else mget m k' := by
-  unfold bump newVal
-  cases h : mget m k with
-  | none => simp [mget_mput]
-  | some last =>
-    by_cases h2 : a > last
-    · simp [h2, mget_mput]
-    · simp only [h2, if_false]
-      by_cases h3 : k = k'
-      · subst h3; simp [h]
-      · simp [h3]
-
-theorem newVal_ge (m : LMap) (k a : Int) : a ≤ newVal m k a := by
-  unfold newVal; split
-  · split <;> omega
-  · omega
-
-theorem newVal_ge_old (m : LMap) (k a old : Int) (h : mget m k = some old) : old ≤ newVal m k a := by
-  unfold newVal; rw [h]; simp only; split <;> omega
-
-theorem mget_filter_key (m : LMap) (p : Int → Bool) (k : Int) :
-    mget (m.filter (fun x => p x.1)) k = if p k then mget m k else none := by
-  induction m with
-  | nil => simp [mget]
-  | cons x r ih =>
-    obtain ⟨a, v⟩ := x
-    by_cases h : p a = true
-    · simp only [List.filter, h, mget, ih]
-      by_cases h2 : a = k
-      · subst h2; simp [h]
-      · simp [h2]
-    · simp only [List.filter, h, mget, ih]
-      by_cases h2 : a = k
-      · subst h2; simp [h]
-      · simp [h2]
-
-theorem mget_gcMap (m : LMap) (g : Int) (del : List Int) (k : Int) :
-    mget (gcMap m g del) k = if (decide (k < g) && del.contains k) then none else mget m k := by
-  unfold gcMap
-  rw [mget_filter_key m (fun a => !(decide (a < g) && del.contains a)) k]
-  cases (decide (k < g) && del.contains k) <;> simp
-
-theorem mget_gcMap_ge (m : LMap) (g : Int) (del : List Int) (k : Int) (h : g ≤ k) :
-    mget (gcMap m g del) k = mget m k := by
-  rw [mget_gcMap]; have : ¬ k < g := by omega
-  simp [this]
-
-theorem mget_gcMap_some (m : LMap) (g : Int) (del : List Int) (k v : Int) (h : mget (gcMap m g del) k = some v) :
-    mget m k = some v := by
-  rw [mget_gcMap] at h; split at h
-  · simp at h
-  · exact h
-
-/-! ### rounding -/
-
-theorem roundTime_le (t step off : Int) (h : 0 < step) : roundTime t step off ≤ t := by
-  unfold roundTime
-  have := Int.ediv_mul_le (t + off) (Int.ne_of_gt h)
-  omega
-
-theorem lt_roundTime_add (t step off : Int) (h : 0 < step) : t < roundTime t step off + step := by
-  unfold roundTime
-  have := Int.lt_ediv_add_one_mul_self (t + off) h
-  have e : ((t + off) / step + 1) * step = (t + off) / step * step + step := by ring
-  omega
-
-theorem roundTime_one (t off : Int) : roundTime t 1 off = t := by
-  unfold roundTime; simp
-
-/-- a rounded value above `lo`'s bucket end and below `hi`'s bucket start is one of the scanned keys -/
-theorem round_between (s lo hi step off : Int) (h : 0 < step)
-    (h1 : roundTime lo step off + step < s) (h2 : s < roundTime hi step off) :
-    ∃ k : Nat, k < countMid (roundTime lo step off) (roundTime hi step off) step ∧
-      roundTime s step off = roundTime lo step off + step + step * (k : Int) := by
-  unfold roundTime at *
-  generalize hqs : (s + off) / step = c at *
-  generalize hql : (lo + off) / step = a at *
-  generalize hqh : (hi + off) / step = b at *
-  have hs1 := Int.ediv_mul_le (s + off) (Int.ne_of_gt h)
-  have hs2 := Int.lt_ediv_add_one_mul_self (s + off) h
-  rw [hqs] at hs1 hs2
-  -- c ≥ a + 1 and c ≤ b - 1
-  have hca : a + 1 ≤ c := by
-    have : (a + 1) * step < (c + 1) * step := by
-      have e : (a + 1) * step = a * step + step := by ring
-      linarith
-    have := Int.lt_of_mul_lt_mul_right this (le_of_lt h)
-    omega
-  have hcb : c < b := by
-    have : c * step < b * step := by linarith
-    exact Int.lt_of_mul_lt_mul_right this (le_of_lt h)
-  refine ⟨(c - a - 1).toNat, ?_, ?_⟩
-  · unfold countMid
-    have e : (b * step - off - (a * step - off) - 1) = (step - 1) + (b - a - 1) * step := by ring
-    rw [e, Int.add_mul_ediv_right _ _ (Int.ne_of_gt h)]
-    have : (step - 1) / step = 0 := Int.ediv_eq_zero_of_lt (by omega) (by omega)
-    rw [this]
-    omega
-  · have : ((c - a - 1).toNat : Int) = c - a - 1 := Int.toNat_of_nonneg (by omega)
-    rw [this]; ring
-
 /-! ### soundness of the hierarchical check -/
-
-theorem scanOK_false (m : LMap) (loadAt base step : Int) (n k : Nat) (hk : k < n)
-    (h : staleKey m loadAt (base + step * (k : Int)) = true) : scanOK m loadAt base step n = false := by
-  unfold scanOK
-  rw [List.all_eq_false]
-  exact ⟨k, List.mem_range.mpr hk, by simp [h]⟩
-
-theorem staleKey_of (m : LMap) (loadAt k a b : Int) (hb : mget m k = some b) (hab : a ≤ b)
-    (h : loadAt ≤ a + invalidateLingerNs) : staleKey m loadAt k = true := by
-  unfold staleKey; rw [hb]; simp; omega
 
 /-- every level's map dominates the per-second map `sm` on buckets that start at or after `g` -/
 def CovL (lv : List Level) (sm : LMap) (off g : Int) : Prop :=
@@ -229,48 +104,11 @@ theorem checkLevels_sound (sm : LMap) (off g loadAt : Int) :
 
 /-! ### the invariant of the three maps, for every history -/
 
-def secMap (lv : List Level) : LMap :=
-  match lv.getLast? with
-  | some p => p.2
-  | none => []
-
 /-- `H` = every (second, invalidation clock) seen so far, `g` = an upper bound of every gc edge so far -/
 structure Good (s : State) (H : List (Int × Int)) (g : Int) : Prop where
   stepsEq : s.levels.map (·.1) = steps
   cov : CovL s.levels (secMap s.levels) s.off g
   hist : ∀ sec tAt, (sec, tAt) ∈ H → g ≤ sec → ∃ a, mget (secMap s.levels) sec = some a ∧ tAt ≤ a
-
-theorem steps_good : (∀ st ∈ steps, 0 < st) ∧ steps.getLast? = some 1 := by decide
-
-theorem levels_pos (lv : List Level) (h : lv.map (·.1) = steps) : ∀ p ∈ lv, 0 < p.1 := by
-  intro p hp
-  apply steps_good.1
-  rw [← h]; exact List.mem_map_of_mem hp
-
-theorem levels_last (lv : List Level) (h : lv.map (·.1) = steps) : lv.getLast? = some (1, secMap lv) := by
-  have h2 := steps_good.2
-  rw [← h, List.getLast?_map] at h2
-  unfold secMap
-  cases hl : lv.getLast? with
-  | none => simp [hl] at h2
-  | some p =>
-    simp [hl] at h2
-    obtain ⟨a, b⟩ := p
-    simp at h2; subst h2; rfl
-
-theorem secMap_of_last (lv : List Level) (p : Level) (h : lv.getLast? = some p) : secMap lv = p.2 := by
-  unfold secMap; rw [h]
-
-theorem updateLevels_fst (lv : List Level) (off tAt sec : Int) :
-    (updateLevels lv off tAt sec).map (·.1) = lv.map (·.1) := by
-  unfold updateLevels; rw [List.map_map]; rfl
-
-theorem updateLevels_secMap (lv : List Level) (off tAt sec : Int) (sm : LMap) (h : lv.getLast? = some (1, sm)) :
-    secMap (updateLevels lv off tAt sec) = bump sm sec tAt := by
-  apply secMap_of_last (p := (1, bump sm sec tAt))
-  unfold updateLevels
-  rw [List.getLast?_map, h]
-  simp [roundTime_one]
 
 theorem update_cov (lv : List Level) (sm : LMap) (off g tAt sec : Int) (hcov : CovL lv sm off g) :
     CovL (updateLevels lv off tAt sec) (bump sm sec tAt) off g := by
@@ -334,60 +172,6 @@ theorem updateAll_good (secs : List Int) : ∀ (s : State) (H : List (Int × Int
     simp only [List.map_cons, List.cons_append, List.mem_cons, List.mem_append] at hmem ⊢
     tauto
 
-theorem gcLevels_fst : ∀ (lv : List Level) (gf : Int) (ds : List (List Int)),
-    (gcLevels lv gf ds).map (·.1) = lv.map (·.1) := by
-  intro lv
-  induction lv with
-  | nil => intro gf ds; simp [gcLevels]
-  | cons p r ih => intro gf ds; cases ds <;> simp [gcLevels, ih]
-
-theorem gcLevels_mem : ∀ (lv : List Level) (gf : Int) (ds : List (List Int)) (p' : Level),
-    p' ∈ gcLevels lv gf ds → ∃ p ∈ lv, ∃ d, p' = (p.1, gcMap p.2 gf d) := by
-  intro lv
-  induction lv with
-  | nil => intro gf ds p' h; simp [gcLevels] at h
-  | cons p r ih =>
-    intro gf ds p' h
-    cases ds with
-    | nil =>
-      simp only [gcLevels, List.mem_cons] at h
-      rcases h with h | h
-      · exact ⟨p, by simp, [], h⟩
-      · obtain ⟨q, hq, d, e⟩ := ih gf [] p' h
-        exact ⟨q, List.mem_cons_of_mem _ hq, d, e⟩
-    | cons d ds =>
-      simp only [gcLevels, List.mem_cons] at h
-      rcases h with h | h
-      · exact ⟨p, by simp, d, h⟩
-      · obtain ⟨q, hq, d', e⟩ := ih gf ds p' h
-        exact ⟨q, List.mem_cons_of_mem _ hq, d', e⟩
-
-theorem gcLevels_last : ∀ (lv : List Level) (gf : Int) (ds : List (List Int)) (p : Level),
-    lv.getLast? = some p → ∃ d, (gcLevels lv gf ds).getLast? = some (p.1, gcMap p.2 gf d) := by
-  intro lv
-  induction lv with
-  | nil => intro gf ds p h; simp at h
-  | cons x r ih =>
-    intro gf ds p h
-    cases r with
-    | nil =>
-      simp at h; subst h
-      cases ds with
-      | nil => exact ⟨[], by simp [gcLevels]⟩
-      | cons d ds => exact ⟨d, by simp [gcLevels]⟩
-    | cons y r' =>
-      rw [List.getLast?_cons_cons] at h
-      cases ds with
-      | nil =>
-        obtain ⟨d, hd⟩ := ih gf [] p h
-        refine ⟨d, ?_⟩
-        simp only [gcLevels] at hd ⊢
-        rw [List.getLast?_cons_cons]; exact hd
-      | cons d0 ds =>
-        obtain ⟨d, hd⟩ := ih gf ds p h
-        refine ⟨d, ?_⟩
-        cases ds <;> (simp only [gcLevels] at hd ⊢; rw [List.getLast?_cons_cons]; exact hd)
-
 theorem gc_good (s : State) (H : List (Int × Int)) (g gf : Int) (ds : List (List Int)) (h : Good s H g) (hgf : gf ≤ g) :
     Good { s with levels := gcLevels s.levels gf ds } H g := by
   have hl := levels_last s.levels h.stepsEq
@@ -424,51 +208,6 @@ def events : List Op → List (Int × Int)
 /-- every gc edge (`now.Add(invalidateFrom).Unix()` of an invalidate call) in the history is at most `g` -/
 def EdgesLe (ops : List Op) (g : Int) : Prop :=
   ∀ tAt tFrom secs dels, Op.invalidate tAt tFrom secs dels ∈ ops → edgeSec tFrom ≤ g
-
-theorem evictOne_frame (s : State) (k : Nat) :
-    (evictOne s k).levels = s.levels ∧ (evictOne s k).off = s.off ∧ (evictOne s k).maxSize = s.maxSize := by
-  unfold evictOne; split <;> simp
-
-theorem evictLoop_frame : ∀ (ch : List Nat) (s : State),
-    (evictLoop s ch).1.levels = s.levels ∧ (evictLoop s ch).1.off = s.off ∧ (evictLoop s ch).1.maxSize = s.maxSize := by
-  intro ch
-  induction ch with
-  | nil => intro s; simp only [evictLoop]; split <;> (try split) <;> simp
-  | cons k ks ih =>
-    intro s
-    simp only [evictLoop]
-    split
-    · split
-      · have h1 := ih (evictOne s k)
-        have h2 := evictOne_frame s k
-        exact ⟨h1.1.trans h2.1, h1.2.1.trans h2.2.1, h1.2.2.trans h2.2.2⟩
-      · simp
-    · simp
-
-theorem insertRows_frame (s : State) (key : Nat) (tLru : Int) (cr : CRows) :
-    (insertRows s key tLru cr).levels = s.levels ∧ (insertRows s key tLru cr).off = s.off ∧
-    (insertRows s key tLru cr).maxSize = s.maxSize := by
-  unfold insertRows; simp only; split <;> simp
-
-theorem store_frame (s : State) (key : Nat) (tLru : Int) (cr : CRows) (ch : List Nat) :
-    (store s key tLru cr ch).1.levels = s.levels ∧ (store s key tLru cr ch).1.off = s.off ∧
-    (store s key tLru cr ch).1.maxSize = s.maxSize := by
-  unfold store
-  have h := evictLoop_frame ch s
-  split
-  · rename_i s1 heq
-    rw [heq] at h
-    have h2 := insertRows_frame s1 key tLru cr
-    exact ⟨h2.1.trans h.1, h2.2.1.trans h.2.1, h2.2.2.trans h.2.2⟩
-  · rename_i s1 f _ heq
-    rw [heq] at h; exact h
-
-theorem loadCached_frame (s : State) (key : Nat) (f t tLru tChk : Int) :
-    (loadCached s key f t tLru tChk).1.levels = s.levels ∧ (loadCached s key f t tLru tChk).1.off = s.off ∧
-    (loadCached s key f t tLru tChk).1.maxSize = s.maxSize := by
-  unfold loadCached; split
-  · simp
-  · simp only; split <;> simp
 
 theorem good_congr (s s' : State) (H : List (Int × Int)) (g : Int) (hl : s'.levels = s.levels) (ho : s'.off = s.off)
     (h : Good s H g) : Good s' H g := by
@@ -624,32 +363,6 @@ theorem immutable_served (s : State) (key : Nat) (f t tLru tChk : Int) (cr : CRo
 def Prov (s : State) (L : List Op) : Prop :=
   ∀ e ∈ s.cache, ∀ cr ∈ e.rows, ∃ tLru ch, Op.store e.key tLru cr ch ∈ L
 
-theorem findEntry_mem : ∀ (c : List Entry) (k : Nat) (e : Entry), findEntry c k = some e → e ∈ c ∧ e.key = k := by
-  intro c
-  induction c with
-  | nil => intro k e h; simp [findEntry] at h
-  | cons x r ih =>
-    intro k e h
-    simp only [findEntry] at h
-    split at h
-    · injection h with h; subst h; exact ⟨by simp, by assumption⟩
-    · obtain ⟨h1, h2⟩ := ih k e h; exact ⟨List.mem_cons_of_mem _ h1, h2⟩
-
-theorem findRows_mem : ∀ (rs : List CRows) (f t : Int) (cr : CRows), findRows rs f t = some cr →
-    cr ∈ rs ∧ cr.tFrom = f ∧ cr.tTo = t := by
-  intro rs
-  induction rs with
-  | nil => intro f t cr h; simp [findRows] at h
-  | cons x r ih =>
-    intro f t cr h
-    simp only [findRows] at h
-    split at h
-    · rename_i hr
-      injection h with h; subst h
-      simp [isRange] at hr
-      exact ⟨by simp, hr.1, hr.2⟩
-    · obtain ⟨h1, h2⟩ := ih f t cr h; exact ⟨List.mem_cons_of_mem _ h1, h2⟩
-
 theorem prov_sub (s : State) (L L' : List Op) (hsub : ∀ x, x ∈ L → x ∈ L') (h : Prov s L) : Prov s L' := by
   intro e he cr hcr
   obtain ⟨a, b, hm⟩ := h e he cr hcr
@@ -764,11 +477,6 @@ theorem served_rows_stored_by_load (maxSize off : Int) (ops : List Op) (key : Na
 
 /-! ### the size bound -/
 
-/-- what the eviction loop compares with approxMaxSize -/
-def load (s : State) : Int := s.size + (s.cache.length : Int)
-
-theorem entryCost_nonneg (e : Entry) : 0 ≤ entryCost e := by unfold entryCost; omega
-
 theorem evictOne_load_le (s : State) (k : Nat) : load (evictOne s k) ≤ load s := by
   unfold evictOne; split
   · exact le_refl _
@@ -846,9 +554,6 @@ theorem store_load_bound (s : State) (key : Nat) (tLru : Int) (cr : CRows) (ch :
 /-- every store of the history loads at most `N` rows -/
 def RowsLe (ops : List Op) (N : Nat) : Prop := ∀ key tLru cr ch, Op.store key tLru cr ch ∈ ops → cr.n ≤ N
 
-theorem setLru_length (c : List Entry) (k : Nat) (t : Int) : (setLru c k t).length = c.length := by
-  unfold setLru; simp
-
 theorem step_load_bound (s : State) (op : Op) (B : Int) (N : Nat) (h : load s ≤ B)
     (hB : s.maxSize + 1 + (N : Int) ≤ B) (hop : RowsLe [op] N) : load (step s op) ≤ B := by
   cases op with
@@ -901,12 +606,6 @@ theorem cache_within_bound (maxSize off : Int) (N : Nat) (ops : List Op) (hpos :
 
 /-! ### the accounted size dominates the real content -/
 
-def rowsTotal (rs : List CRows) : Int := (rs.map (fun c => (c.n : Int))).sum
-/-- what an entry really holds: itself, its ranges, their rows -/
-def actualEntry (e : Entry) : Int := 1 + (e.rows.length : Int) + rowsTotal e.rows
-def actual (s : State) : Int := (s.cache.map actualEntry).sum
-def costSum (c : List Entry) : Int := (c.map entryCost).sum
-
 structure Acc (s : State) : Prop where
   sizeGe : costSum s.cache ≤ s.size
   nodup : (s.cache.map (·.key)).Nodup
@@ -925,52 +624,6 @@ theorem sum_actual_le : ∀ (c : List Entry), (∀ e ∈ c, rowsTotal e.rows ≤
     simp only [List.map_cons, List.sum_cons, List.length_cons, costSum] at h2 ⊢
     push_cast
     omega
-
-theorem findEntry_none : ∀ (c : List Entry) (k : Nat), findEntry c k = none → ∀ e ∈ c, e.key ≠ k := by
-  intro c
-  induction c with
-  | nil => intro k _ e he; simp at he
-  | cons x r ih =>
-    intro k h e he
-    simp only [findEntry] at h
-    split at h
-    · simp at h
-    · rcases List.mem_cons.mp he with e1 | e1
-      · subst e1; assumption
-      · exact ih k h e e1
-
-theorem costSum_cons (x : Entry) (r : List Entry) : costSum (x :: r) = entryCost x + costSum r := by
-  simp [costSum]
-
-theorem costSum_filter_le (r : List Entry) (p : Entry → Bool) : costSum (r.filter p) ≤ costSum r := by
-  induction r with
-  | nil => simp
-  | cons y r' ih =>
-    have := entryCost_nonneg y
-    rw [List.filter_cons]; split
-    · rw [costSum_cons, costSum_cons]; omega
-    · rw [costSum_cons]; omega
-
-theorem costSum_filter : ∀ (c : List Entry) (k : Nat) (e : Entry), findEntry c k = some e →
-    costSum (c.filter (fun x => x.key ≠ k)) + entryCost e ≤ costSum c := by
-  intro c
-  induction c with
-  | nil => intro k e h; simp [findEntry] at h
-  | cons x r ih =>
-    intro k e h
-    simp only [findEntry] at h
-    split at h
-    · rename_i hk
-      injection h with h; subst h
-      have := costSum_filter_le r (fun y => y.key ≠ k)
-      rw [List.filter_cons]; split
-      · rename_i hd; simp [hk] at hd
-      · rw [costSum_cons]; omega
-    · rename_i hk
-      have := ih k e h
-      rw [List.filter_cons]; split
-      · rw [costSum_cons, costSum_cons]; omega
-      · rename_i hd; simp [hk] at hd
 
 theorem evictOne_acc (s : State) (k : Nat) (h : Acc s) : Acc (evictOne s k) := by
   unfold evictOne; split
@@ -994,29 +647,6 @@ theorem evictLoop_acc : ∀ (ch : List Nat) (s : State), Acc s → Acc (evictLoo
       · exact h
     · exact h
 
-theorem filter_range_len : ∀ (rows : List CRows) (f t : Int), hasRange rows f t = true →
-    (rows.filter (fun x => !isRange x f t)).length + 1 ≤ rows.length := by
-  intro rows
-  induction rows with
-  | nil => intro f t h; simp [hasRange, findRows] at h
-  | cons c r ih =>
-    intro f t h
-    by_cases hc : isRange c f t = true
-    · have := List.length_filter_le (fun x => !isRange x f t) r
-      simp only [List.filter, hc, Bool.not_true, List.length_cons]; omega
-    · have hr : hasRange r f t = true := by
-        simp only [hasRange, findRows, hc] at h ⊢; exact h
-      have := ih f t hr
-      simp only [List.filter, hc, Bool.not_false, List.length_cons]; omega
-
-theorem rowsTotal_filter_le (rows : List CRows) (p : CRows → Bool) : rowsTotal (rows.filter p) ≤ rowsTotal rows := by
-  induction rows with
-  | nil => simp
-  | cons c r ih =>
-    by_cases hc : p c = true
-    · simp only [List.filter, hc, rowsTotal, List.map_cons, List.sum_cons] at ih ⊢; omega
-    · simp only [List.filter, hc, rowsTotal, List.map_cons, List.sum_cons] at ih ⊢; omega
-
 theorem putEntry_cost (e : Entry) (tLru : Int) (cr : CRows) :
     entryCost (putEntry e tLru cr) ≤ entryCost e + sizeDelta e cr := by
   unfold entryCost putEntry putRange sizeDelta
@@ -1028,33 +658,6 @@ theorem putEntry_cost (e : Entry) (tLru : Int) (cr : CRows) :
     omega
   · have := List.length_filter_le (fun x => !isRange x cr.tFrom cr.tTo) e.rows
     omega
-
-theorem costSum_update : ∀ (c : List Entry) (key : Nat) (F : Entry → Entry) (e : Entry),
-    (c.map (·.key)).Nodup → findEntry c key = some e →
-    costSum (c.map (fun x => if x.key = key then F x else x)) = costSum c - entryCost e + entryCost (F e) := by
-  intro c
-  induction c with
-  | nil => intro key F e _ h; simp [findEntry] at h
-  | cons x r ih =>
-    intro key F e hnd h
-    simp only [List.map_cons, List.nodup_cons] at hnd
-    simp only [findEntry] at h
-    split at h
-    · rename_i hk
-      injection h with h; subst h
-      have hid : r.map (fun y => if y.key = key then F y else y) = r := by
-        have : ∀ y ∈ r, y.key ≠ key := by
-          intro y hy hyk
-          exact hnd.1 (by rw [hk, ← hyk]; exact List.mem_map_of_mem hy)
-        calc r.map (fun y => if y.key = key then F y else y) = r.map id := by
-              apply List.map_congr_left; intro y hy; simp [this y hy]
-          _ = r := by simp
-      simp only [costSum, List.map_cons, List.sum_cons, hk, if_true, hid]
-      omega
-    · rename_i hk
-      have := ih key F e hnd.2 h
-      simp only [costSum, List.map_cons, List.sum_cons, hk, if_false] at this ⊢
-      omega
 
 theorem addKey_props (c : List Entry) (key : Nat) (hnd : (c.map (·.key)).Nodup)
     (hrows : ∀ e ∈ c, rowsTotal e.rows ≤ (e.rowsSize : Int)) :
@@ -1199,4 +802,551 @@ theorem clock_hypothesis_needed :
     (loadCached (run (init 10 0) backOps) 1 33000 43300 210700000000000 210700000000000).2 = .stale := by
   decide
 
+
+
+
+/-! ### completeness: the maps never over-invalidate -/
+
+/-- the converse of `Good`: coarse entries are witnessed by seconds of their bucket, and every entry of the
+    per-second map is an invalidation of the history with exactly that clock -/
+structure Tight (s : State) (H : List (Int × Int)) (g : Int) : Prop where
+  wit : WitL s.levels (secMap s.levels) s.off g
+  src : ∀ sec a, mget (secMap s.levels) sec = some a → (sec, a) ∈ H
+
+theorem tight_sup (s : State) (H H' : List (Int × Int)) (g : Int) (hsub : ∀ x, x ∈ H → x ∈ H') (h : Tight s H g) :
+    Tight s H' g :=
+  ⟨h.wit, fun sec a hm => hsub _ (h.src sec a hm)⟩
+
+theorem tight_congr (s s' : State) (H : List (Int × Int)) (g : Int) (hl : s'.levels = s.levels) (ho : s'.off = s.off)
+    (h : Tight s H g) : Tight s' H g := by
+  refine ⟨?_, ?_⟩
+  · rw [hl, ho]; exact h.wit
+  · rw [hl]; exact h.src
+
+theorem update_tight (s : State) (H : List (Int × Int)) (g tAt sec : Int) (hg : Good s H g) (h : Tight s H g) :
+    Tight { s with levels := updateLevels s.levels s.off tAt sec } ((sec, tAt) :: H) g := by
+  have hl := levels_last s.levels hg.stepsEq
+  have hsm := updateLevels_secMap s.levels s.off tAt sec _ hl
+  refine ⟨?_, ?_⟩
+  · simp only [hsm]; exact update_wit _ _ _ _ _ _ h.wit
+  · intro sec' a hm
+    simp only [hsm, mget_bump] at hm
+    by_cases e : sec = sec'
+    · subst e
+      simp only [if_true] at hm
+      injection hm with hm
+      cases hold : mget (secMap s.levels) sec with
+      | none =>
+        have : a = tAt := by rw [← hm]; simp only [newVal, hold]
+        rw [this]; simp
+      | some last =>
+        by_cases h2 : tAt > last
+        · have : a = tAt := by rw [← hm]; simp only [newVal, hold, h2, if_true]
+          rw [this]; simp
+        · have : a = last := by rw [← hm]; simp only [newVal, hold, h2, if_false]
+          rw [this]; exact List.mem_cons_of_mem _ (h.src sec last hold)
+    · simp only [e, if_false] at hm
+      exact List.mem_cons_of_mem _ (h.src sec' a hm)
+
+theorem updateAll_tight (secs : List Int) : ∀ (s : State) (H : List (Int × Int)) (g tAt : Int), Good s H g → Tight s H g →
+    Tight { s with levels := updateAll s.levels s.off tAt secs } (secs.map (fun x => (x, tAt)) ++ H) g := by
+  induction secs with
+  | nil => intro s H g tAt _ h; simpa [updateAll] using h
+  | cons x r ih =>
+    intro s H g tAt hg h
+    have g1 := update_good s H g tAt x hg
+    have h1 := update_tight s H g tAt x hg h
+    have h2 := ih _ _ g tAt g1 h1
+    simp only [updateAll]
+    apply tight_sup _ _ _ g _ h2
+    intro y hy
+    simp only [List.map_cons, List.cons_append, List.mem_cons, List.mem_append] at hy ⊢
+    tauto
+
+theorem gc_tight (s : State) (H : List (Int × Int)) (g gf : Int) (ds : List (List Int)) (hg : Good s H g)
+    (h : Tight s H g) (hgf : gf ≤ g) : Tight { s with levels := gcLevels s.levels gf ds } H g := by
+  have hl := levels_last s.levels hg.stepsEq
+  obtain ⟨d, hd⟩ := gcLevels_last s.levels gf ds _ hl
+  have hsm : secMap (gcLevels s.levels gf ds) = gcMap (secMap s.levels) gf d := secMap_of_last _ _ hd
+  refine ⟨?_, ?_⟩
+  · simp only [hsm]; exact gc_wit _ _ _ _ _ _ _ (levels_pos _ hg.stepsEq) h.wit hgf
+  · intro sec a hm
+    simp only [hsm] at hm
+    exact h.src sec a (mget_gcMap_some _ _ _ _ _ hm)
+
+theorem step_tight (s : State) (H : List (Int × Int)) (g : Int) (op : Op) (hg : Good s H g) (h : Tight s H g)
+    (he : EdgesLe [op] g) : Tight (step s op) (opEvents op ++ H) g := by
+  cases op with
+  | lookup key f t tLru tChk =>
+    have hf := loadCached_frame s key f t tLru tChk
+    simpa [step, opEvents] using tight_congr s _ H g hf.1 hf.2.1 h
+  | store key tLru cr ch =>
+    have hf := store_frame s key tLru cr ch
+    simpa [step, opEvents] using tight_congr s _ H g hf.1 hf.2.1 h
+  | invalidate tAt tFrom secs dels =>
+    simp only [step, opEvents]
+    have g1 := updateAll_good secs s H g tAt hg
+    have h1 := updateAll_tight secs s H g tAt hg h
+    exact gc_tight _ _ g (edgeSec tFrom) dels g1 h1 (he tAt tFrom secs dels (by simp))
+
+theorem run_tight : ∀ (ops : List Op) (s : State) (H : List (Int × Int)) (g : Int), Good s H g → Tight s H g →
+    EdgesLe ops g → Tight (run s ops) (events ops ++ H) g := by
+  intro ops
+  induction ops with
+  | nil => intro s H g _ h _; simpa [run, events] using h
+  | cons op r ih =>
+    intro s H g hg h he
+    have he1 : EdgesLe [op] g := fun a b c d hm => he a b c d (by simp at hm; simp [hm])
+    have g1 := step_good s H g op hg he1
+    have h1 := step_tight s H g op hg h he1
+    have h2 := ih (step s op) _ g g1 h1 (fun a b c d hm => he a b c d (List.mem_cons_of_mem _ hm))
+    simp only [run]
+    apply tight_sup _ _ _ g _ h2
+    intro x hx
+    simp only [events, List.mem_append] at hx ⊢
+    tauto
+
+theorem init_tight (maxSize off g : Int) : Tight (init maxSize off) [] g := by
+  have hs : secMap (init maxSize off).levels = [] := by
+    show secMap initLevels = []
+    decide
+  refine ⟨?_, ?_⟩
+  · intro p hp k b hb _
+    have : p.2 = [] := by
+      have hp' : p ∈ initLevels := hp
+      unfold initLevels at hp'
+      obtain ⟨st, _, rfl⟩ := List.mem_map.mp hp'
+      rfl
+    rw [this] at hb; simp [mget] at hb
+  · intro sec a hm; rw [hs] at hm; simp [mget] at hm
+
+theorem edge_le_clamp (f now : Int) : edgeSec now ≤ clampFrom f now := by
+  unfold clampFrom; split
+  · exact le_refl _
+  · rename_i hb; exact edge_le_of_mutable f now (by simpa using hb)
+
+/-- `check_sound` for the range the code really scans, `[clampFrom f now, t]` (it includes the second that
+    contains the edge even when the edge has a sub-second part) -/
+theorem check_sound_clamp (s : State) (H : List (Int × Int)) (g : Int) (hgood : Good s H g)
+    (now loadAt f t sec a : Int) (hg : g ≤ edgeSec now) (ht : beforeEdge t now = false)
+    (h1 : clampFrom f now ≤ sec) (h2 : sec ≤ t)
+    (hs : mget (secMap s.levels) sec = some a) (hl : loadAt ≤ a + invalidateLingerNs) :
+    checkInvalidation s.levels s.off now loadAt f t = false := by
+  unfold checkInvalidation
+  simp only [ht, Bool.false_eq_true, if_false]
+  exact checkLevels_sound (secMap s.levels) s.off g loadAt s.levels (levels_pos _ hgood.stepsEq)
+    (levels_last _ hgood.stepsEq) hgood.cov (clampFrom f now) t sec a
+    (le_trans hg (edge_le_clamp f now)) h1 h2 hs hl
+
+/-- the check answers `false` only because of a second inside the scanned range whose entry is late enough -/
+theorem check_exact (s : State) (H : List (Int × Int)) (g : Int) (hgood : Good s H g) (htight : Tight s H g)
+    (now loadAt f t : Int) (hg : g ≤ edgeSec now)
+    (hc : checkInvalidation s.levels s.off now loadAt f t = false) :
+    beforeEdge t now = false ∧
+    ∃ sec a, clampFrom f now ≤ sec ∧ sec ≤ t ∧ mget (secMap s.levels) sec = some a ∧
+      loadAt ≤ a + invalidateLingerNs := by
+  unfold checkInvalidation at hc
+  cases ht : beforeEdge t now with
+  | true => simp [ht] at hc
+  | false =>
+    simp only [ht, Bool.false_eq_true, if_false] at hc
+    refine ⟨rfl, ?_⟩
+    exact checkLevels_exact (secMap s.levels) s.off g loadAt s.levels (levels_pos _ hgood.stepsEq)
+      (levels_last _ hgood.stepsEq) htight.wit (clampFrom f now) t (le_trans hg (edge_le_clamp f now)) hc
+
+/-- C24 two-sided (`served_iff` of DESIGN §6). For EVERY history: a cached range is reported stale (and then
+    reloaded by get) IF AND ONLY IF it does not end before the mutable window and some second of the scanned
+    range `[max(from, edge second), to]` was invalidated, in this history, at a clock `tAt` with
+    `loadedAt ≤ tAt + linger`. No coarse-bucket over-invalidation exists: the witness second lies inside the
+    range itself, because a coarse key is consulted only when its whole bucket is inside the range. -/
+theorem stale_iff (maxSize off : Int) (ops : List Op) (key : Nat) (f t tLru tChk : Int) (cr : CRows)
+    (hclock : EdgesLe ops (edgeSec tChk))
+    (hcached : lookupRows (run (init maxSize off) ops) key f t = some cr) :
+    (loadCached (run (init maxSize off) ops) key f t tLru tChk).2 = .stale ↔
+      (beforeEdge t tChk = false ∧ ∃ sec tAt, (sec, tAt) ∈ events ops ∧ clampFrom f tChk ≤ sec ∧ sec ≤ t ∧
+        cr.loadedAt ≤ tAt + invalidateLingerNs) := by
+  have hgood := run_good ops (init maxSize off) [] (edgeSec tChk) (init_good _ _ _) hclock
+  have htight := run_tight ops (init maxSize off) [] (edgeSec tChk) (init_good _ _ _) (init_tight _ _ _) hclock
+  generalize run (init maxSize off) ops = s at *
+  have hres : (loadCached s key f t tLru tChk).2 =
+      if checkInvalidation s.levels s.off tChk cr.loadedAt f t then .served cr.n cr.gen else .stale := by
+    unfold loadCached; rw [hcached]; simp only; split <;> rfl
+  rw [hres]
+  constructor
+  · intro h
+    have hc : checkInvalidation s.levels s.off tChk cr.loadedAt f t = false := by
+      cases hx : checkInvalidation s.levels s.off tChk cr.loadedAt f t with
+      | true => simp [hx] at h
+      | false => rfl
+    obtain ⟨ht, sec, a, h1, h2, hm, hl⟩ := check_exact s _ _ hgood htight tChk cr.loadedAt f t (le_refl _) hc
+    exact ⟨ht, sec, a, by simpa using htight.src sec a hm, h1, h2, hl⟩
+  · rintro ⟨ht, sec, tAt, hev, h1, h2, hl⟩
+    obtain ⟨a, ha, hle⟩ := hgood.hist sec tAt (by simpa using hev) (le_trans (edge_le_clamp f tChk) h1)
+    have := check_sound_clamp s _ _ hgood tChk cr.loadedAt f t sec a (le_refl _) ht h1 h2 ha (by omega)
+    simp [this]
+
+/-- the same, read from the serving side: served ⟺ outside the window or no late invalidation in range -/
+theorem served_iff (maxSize off : Int) (ops : List Op) (key : Nat) (f t tLru tChk : Int) (cr : CRows)
+    (hclock : EdgesLe ops (edgeSec tChk))
+    (hcached : lookupRows (run (init maxSize off) ops) key f t = some cr) :
+    (loadCached (run (init maxSize off) ops) key f t tLru tChk).2 = .served cr.n cr.gen ↔
+      (beforeEdge t tChk = true ∨ ∀ sec tAt, (sec, tAt) ∈ events ops → clampFrom f tChk ≤ sec → sec ≤ t →
+        tAt + invalidateLingerNs < cr.loadedAt) := by
+  have hst := stale_iff maxSize off ops key f t tLru tChk cr hclock hcached
+  have hres : (loadCached (run (init maxSize off) ops) key f t tLru tChk).2 = .served cr.n cr.gen ∨
+      (loadCached (run (init maxSize off) ops) key f t tLru tChk).2 = .stale := by
+    unfold loadCached; rw [hcached]; simp only; split
+    · exact Or.inl rfl
+    · exact Or.inr rfl
+  constructor
+  · intro h
+    have hns : ¬ (loadCached (run (init maxSize off) ops) key f t tLru tChk).2 = .stale := by rw [h]; simp
+    rw [hst] at hns
+    cases hb : beforeEdge t tChk with
+    | true => exact Or.inl rfl
+    | false =>
+      right; intro sec tAt hev h1 h2
+      by_contra hcon
+      exact hns ⟨hb, sec, tAt, hev, h1, h2, by omega⟩
+  · intro h
+    rcases hres with hr | hr
+    · exact hr
+    · rw [hst] at hr
+      obtain ⟨hb, sec, tAt, hev, h1, h2, hl⟩ := hr
+      rcases h with h | h
+      · rw [hb] at h; simp at h
+      · have := h sec tAt hev h1 h2; omega
+
+/-! ### gc of the invalidation maps never changes an answer inside the window -/
+
+theorem step_stepsEq (s : State) (op : Op) (h : s.levels.map (·.1) = steps) : (step s op).levels.map (·.1) = steps := by
+  cases op with
+  | lookup key f t tLru tChk =>
+    have e : (step s (.lookup key f t tLru tChk)).levels = s.levels := (loadCached_frame s key f t tLru tChk).1
+    rw [e]; exact h
+  | store key tLru cr ch =>
+    have e : (step s (.store key tLru cr ch)).levels = s.levels := (store_frame s key tLru cr ch).1
+    rw [e]; exact h
+  | invalidate tAt tFrom secs dels =>
+    simp only [step, invalidate, gcLevels_fst]
+    have : ∀ (secs : List Int) (lv : List Level), (updateAll lv s.off tAt secs).map (·.1) = lv.map (·.1) := by
+      intro secs
+      induction secs with
+      | nil => intro lv; rfl
+      | cons x r ih => intro lv; simp only [updateAll]; rw [ih, updateLevels_fst]
+    rw [this]; exact h
+
+theorem run_stepsEq : ∀ (ops : List Op) (s : State), s.levels.map (·.1) = steps → (run s ops).levels.map (·.1) = steps := by
+  intro ops
+  induction ops with
+  | nil => intro s h; exact h
+  | cons op r ih => intro s h; exact ih _ (step_stepsEq s op h)
+
+/-- In every reachable state, whatever `invalidateLocked` deletes (any sampled subset — even an illegal one) does
+    not change the answer of any later lookup whose clock is not behind the invalidate call's clock: the call
+    with deletions `dels` and the same call without any deletion give the same lookup result. -/
+theorem gc_never_changes_answers (maxSize off : Int) (ops : List Op) (tAt tFrom : Int) (secs : List Int)
+    (dels : List (List Int)) (key : Nat) (f t tLru tChk : Int) (hclock : edgeSec tFrom ≤ edgeSec tChk) :
+    (loadCached (invalidate (run (init maxSize off) ops) tAt tFrom secs dels) key f t tLru tChk).2 =
+    (loadCached (invalidate (run (init maxSize off) ops) tAt tFrom secs []) key f t tLru tChk).2 := by
+  have hst := run_stepsEq ops (init maxSize off) (by show initLevels.map (·.1) = steps; decide)
+  generalize run (init maxSize off) ops = s at *
+  have hup : (updateAll s.levels s.off tAt secs).map (·.1) = steps := by
+    have := step_stepsEq s (.invalidate tAt tFrom secs []) hst
+    simpa [step, invalidate, gcLevels_fst] using this
+  have hpos := levels_pos _ hup
+  have key2 : ∀ ds loadAt, checkInvalidation (gcLevels (updateAll s.levels s.off tAt secs) (edgeSec tFrom) ds) s.off tChk loadAt f t
+      = checkInvalidation (updateAll s.levels s.off tAt secs) s.off tChk loadAt f t := by
+    intro ds loadAt
+    unfold checkInvalidation
+    split
+    · rfl
+    · exact checkLevels_gc s.off loadAt (edgeSec tFrom) _ ds hpos _ t (le_trans hclock (edge_le_clamp f tChk))
+  unfold loadCached invalidate lookupRows
+  simp only
+  cases findEntry s.cache key with
+  | none => rfl
+  | some e =>
+    simp only
+    cases findRows e.rows f t with
+    | none => rfl
+    | some cr => simp only [key2]; split <;> rfl
+
+
+/-! ### exact accounting, termination of the eviction loop, the `k == ""` corner -/
+
+/-- `c.size` is exactly Σ (rowsSize + len(rows)) over the entries; keys are distinct; the ranges of an entry
+    are distinct (they are Go map keys) -/
+structure Exact (s : State) : Prop where
+  sizeEq : s.size = costSum s.cache
+  nodup : (s.cache.map (·.key)).Nodup
+  ranges : ∀ e ∈ s.cache, RangesNodup e.rows
+
+theorem init_exact (maxSize off : Int) : Exact (init maxSize off) :=
+  ⟨by simp [init, costSum], by simp [init], by intro e he; simp [init] at he⟩
+
+theorem evictOne_exact (s : State) (k : Nat) (h : Exact s) : Exact (evictOne s k) := by
+  unfold evictOne; split
+  · exact h
+  · rename_i e he
+    refine ⟨?_, ?_, ?_⟩
+    · simp only; rw [costSum_filter_eq s.cache k e h.nodup he, h.sizeEq]
+    · exact List.Nodup.sublist (List.Sublist.map _ List.filter_sublist) h.nodup
+    · intro x hx; exact h.ranges x (List.mem_filter.mp hx).1
+
+theorem evictLoop_exact : ∀ (ch : List Nat) (s : State), Exact s → Exact (evictLoop s ch).1 := by
+  intro ch
+  induction ch with
+  | nil => intro s h; simp only [evictLoop]; split <;> (try split) <;> exact h
+  | cons k ks ih =>
+    intro s h; simp only [evictLoop]; split
+    · split
+      · exact ih _ (evictOne_exact s k h)
+      · exact h
+    · exact h
+
+theorem insertRows_exact (s : State) (key : Nat) (tLru : Int) (cr : CRows) (h : Exact s) :
+    Exact (insertRows s key tLru cr) := by
+  have hadd : costSum (addKey s.cache key) = costSum s.cache ∧ ((addKey s.cache key).map (·.key)).Nodup ∧
+      (∀ e ∈ addKey s.cache key, RangesNodup e.rows) := by
+    unfold addKey; split
+    · exact ⟨rfl, h.nodup, h.ranges⟩
+    · rename_i hk
+      have hnone : findEntry s.cache key = none := by
+        unfold hasKey at hk; cases hf : findEntry s.cache key <;> simp [hf] at hk ⊢
+      refine ⟨by simp [costSum, entryCost], ?_, ?_⟩
+      · rw [List.map_append, List.nodup_append]
+        refine ⟨h.nodup, by simp, ?_⟩
+        intro a ha b hb
+        simp at hb
+        obtain ⟨e, he, rfl⟩ := List.mem_map.mp ha
+        rw [hb]; exact findEntry_none s.cache key hnone e he
+      · intro e he
+        rcases List.mem_append.mp he with h1 | h1
+        · exact h.ranges e h1
+        · simp at h1; subst h1; simp [RangesNodup]
+  obtain ⟨hc, hnd, hrg⟩ := hadd
+  unfold insertRows; simp only
+  split
+  · exact h
+  · rename_i e he
+    have hemem := (findEntry_mem _ _ _ he).1
+    refine ⟨?_, ?_, ?_⟩
+    · simp only
+      rw [costSum_update _ key (fun x => putEntry x tLru cr) e hnd he, putEntry_cost_eq e tLru cr (hrg e hemem), hc,
+        h.sizeEq]
+      omega
+    · simp only [List.map_map]
+      have : ((fun (x : Entry) => x.key) ∘ fun x => if x.key = key then putEntry x tLru cr else x) = (fun x => x.key) := by
+        funext x; simp only [Function.comp]; split <;> simp [putEntry]
+      rw [this]; exact hnd
+    · intro x hx
+      simp only [List.mem_map] at hx
+      obtain ⟨y, hy, rfl⟩ := hx
+      split
+      · exact putRange_nodup _ _ (hrg y hy)
+      · exact hrg y hy
+
+theorem step_exact (s : State) (op : Op) (h : Exact s) : Exact (step s op) := by
+  cases op with
+  | invalidate tAt tFrom secs dels => exact ⟨h.sizeEq, h.nodup, h.ranges⟩
+  | store key tLru cr ch =>
+    simp only [step, store]
+    have h1 := evictLoop_exact ch s h
+    rcases hE : evictLoop s ch with ⟨s1, f⟩
+    rw [hE] at h1
+    cases f <;> simp only <;> first | exact insertRows_exact s1 key tLru cr h1 | exact h1
+  | lookup key f t tLru tChk =>
+    have hset : Exact { s with cache := setLru s.cache key tLru } := by
+      have hmap : (setLru s.cache key tLru).map entryCost = s.cache.map entryCost ∧
+          (setLru s.cache key tLru).map (·.key) = s.cache.map (·.key) := by
+        unfold setLru; simp only [List.map_map]
+        constructor <;> (apply List.map_congr_left; intro x _; simp only [Function.comp]; split <;> simp [entryCost])
+      refine ⟨?_, ?_, ?_⟩
+      · simp only [costSum, hmap.1]; exact h.sizeEq
+      · simp only [hmap.2]; exact h.nodup
+      · intro e he
+        unfold setLru at he
+        obtain ⟨y, hy, rfl⟩ := List.mem_map.mp he
+        have := h.ranges y hy
+        split <;> simpa using this
+    simp only [step, loadCached]; split
+    · exact h
+    · split <;> exact hset
+
+/-- exact accounting holds in every reachable state, for every history -/
+theorem run_exact : ∀ (ops : List Op) (s : State), Exact s → Exact (run s ops) := by
+  intro ops
+  induction ops with
+  | nil => intro s h; simpa [run] using h
+  | cons op r ih => intro s h; simp only [run]; exact ih _ (step_exact s op h)
+
+/-- The `k == ""` corner of evictLocked (`return 0` without deleting anything, which would make the loop in
+    get spin forever under the lock) needs an EMPTY cache (real keys are never ""), and with exact accounting and
+    approxMaxSize > 0 the loop condition is false on an empty cache: the corner is unreachable. -/
+theorem needEvict_nonempty (s : State) (h : Exact s) (hpos : 0 < s.maxSize) (hn : needEvict s = true) :
+    s.cache ≠ [] := by
+  intro he
+  have := h.sizeEq
+  unfold needEvict at hn
+  simp [he, costSum] at this hn
+  omega
+
+theorem evictLoop_no_hang : ∀ (ch : List Nat) (s : State), Exact s → 0 < s.maxSize → (evictLoop s ch).2 ≠ .hang := by
+  intro ch
+  induction ch with
+  | nil =>
+    intro s h hpos
+    simp only [evictLoop]
+    split
+    · rename_i hn
+      have := needEvict_nonempty s h hpos hn
+      split
+      · rename_i he; simp at he; exact absurd he this
+      · simp
+    · simp
+  | cons k ks ih =>
+    intro s h hpos
+    simp only [evictLoop]
+    split
+    · split
+      · exact ih _ (evictOne_exact s k h) (by rw [(evictOne_frame s k).2.2]; exact hpos)
+      · simp
+    · simp
+
+/-- the keys a picking strategy (= a Go map order and sample) makes the loop evict -/
+def picks (pick : State → Nat) : Nat → State → List Nat
+  | 0, _ => []
+  | fuel + 1, s => if needEvict s then pick s :: picks pick fuel (evictOne s (pick s)) else []
+
+/-- Termination. Whatever legal choice evictLocked makes in each round (any map order / sample), the loop
+    `for size+len >= approxMaxSize` ends normally after at most len(cache) rounds: every round deletes an entry. -/
+theorem evictLoop_terminates (pick : State → Nat)
+    (hpick : ∀ s' : State, s'.cache ≠ [] → evictLegal s'.cache (pick s') = true) :
+    ∀ (fuel : Nat) (s : State), Exact s → 0 < s.maxSize → s.cache.length ≤ fuel →
+      (evictLoop s (picks pick fuel s)).2 = .ok ∧ (picks pick fuel s).length ≤ s.cache.length := by
+  intro fuel
+  induction fuel with
+  | zero =>
+    intro s h hpos hlen
+    have he : s.cache = [] := List.eq_nil_of_length_eq_zero (by omega)
+    have hn : needEvict s = false := by
+      cases hx : needEvict s with
+      | false => rfl
+      | true => exact absurd he (needEvict_nonempty s h hpos hx)
+    simp [picks, evictLoop, hn]
+  | succ fuel ih =>
+    intro s h hpos hlen
+    cases hn : needEvict s with
+    | false => simp [picks, evictLoop, hn]
+    | true =>
+      have hne := needEvict_nonempty s h hpos hn
+      have hleg := hpick s hne
+      obtain ⟨e, he⟩ : ∃ e, findEntry s.cache (pick s) = some e := by
+        unfold evictLegal at hleg
+        cases hf : findEntry s.cache (pick s) with
+        | none => simp [hf] at hleg
+        | some e => exact ⟨e, rfl⟩
+      have hlt : (evictOne s (pick s)).cache.length < s.cache.length := by
+        unfold evictOne; rw [he]; exact filter_length_lt _ _ _ he
+      have := ih (evictOne s (pick s)) (evictOne_exact s _ h) (by rw [(evictOne_frame s _).2.2]; exact hpos) (by omega)
+      simp only [picks, hn, if_true, evictLoop, hleg, List.length_cons]
+      exact ⟨this.1, by omega⟩
+
+/-- a legal choice always exists (so strategies as in `evictLoop_terminates` exist): the smallest lru -/
+theorem legal_pick_exists (s : State) (h : Exact s) (hne : s.cache ≠ []) : ∃ k, evictLegal s.cache k = true := by
+  obtain ⟨e, he, hmin⟩ := exists_min_lru s.cache hne
+  exact ⟨e.key, min_lru_legal s.cache e h.nodup he hmin⟩
+
+/-- C24 size bound with nothing assumed about the loop: in EVERY reachable state of a cache created with
+    approxMaxSize > 0, the store section run with any legal eviction strategy completes (flag ok: no hang, no
+    missing choice) and leaves the accounted size ≤ approxMaxSize + 1 + rows just loaded. -/
+theorem size_bounded (maxSize off : Int) (hpos : 0 < maxSize) (ops : List Op) (pick : State → Nat)
+    (hpick : ∀ s' : State, s'.cache ≠ [] → evictLegal s'.cache (pick s') = true)
+    (key : Nat) (tLru : Int) (cr : CRows) :
+    let s := run (init maxSize off) ops
+    let ch := picks pick s.cache.length s
+    (store s key tLru cr ch).2 = .ok ∧ load (store s key tLru cr ch).1 ≤ maxSize + 1 + (cr.n : Int) := by
+  intro s ch
+  have hex : Exact s := run_exact ops _ (init_exact maxSize off)
+  have hms : s.maxSize = maxSize := by
+    have : ∀ (ops : List Op) (s0 : State), (run s0 ops).maxSize = s0.maxSize := by
+      intro ops; induction ops with
+      | nil => intro s0; rfl
+      | cons op r ih => intro s0; simp only [run]; rw [ih, step_maxSize]
+    exact this ops _
+  have hterm := (evictLoop_terminates pick hpick s.cache.length s hex (by rw [hms]; exact hpos) (le_refl _)).1
+  have hok : (store s key tLru cr ch).2 = .ok := by
+    unfold store
+    rcases hE : evictLoop s ch with ⟨s1, f⟩
+    have : f = .ok := by simpa [ch, hE] using hterm
+    subst this; rfl
+  exact ⟨hok, by have := store_load_bound s key tLru cr ch hok; rw [hms] at this; exact this⟩
+
+/-- non-vacuity: the smallest-lru strategy is legal in every state with distinct keys; concrete run -/
+example : evictLegal (run (init 3 0) (exOps 0)).cache 1 = true := by decide
+example : (store (run (init 3 0) (exOps 0)) 2 5 { tFrom := 1, tTo := 2, n := 1, gen := 9, loadedAt := 4 }
+    (picks (fun _ => 1) 1 (run (init 3 0) (exOps 0)))).2 = .ok := by decide
+/-- the corner itself: with approxMaxSize = 0 the model reports the spin (`hang`) on the very first store -/
+example : (store (init 0 0) 1 5 { tFrom := 1, tTo := 2, n := 1, gen := 9, loadedAt := 4 } []).2 = .hang := by decide
+
+
+/-! ### non-vacuity of the second-round theorems -/
+
+/-- hypotheses of `stale_iff` / `served_iff` hold in a concrete history, and both sides of the iff occur -/
+example : lookupRows (run (init 10 0) (exOps 200015000000000)) 1 30000 45000 = some (exRows 200015000000000) := by decide
+example : beforeEdge 45000 200030000000000 = false ∧ (37000, 200000000000000) ∈ events (exOps 200015000000000) ∧
+    clampFrom 30000 200030000000000 ≤ 37000 := by decide
+
+/-- `gc_never_changes_answers`: a real deletion (hour key 36000, legal for the code) and the necessity of its clock
+    hypothesis: the same deletion changes the answer of a lookup whose clock stepped back behind the gc edge -/
+example : (loadCached (invalidate (run (init 10 0) (backOps.take 2)) 210600000000000 210600000000000 [] [[36000], [], []])
+      1 33000 43300 200030000000000 200030000000000).2 = .served 1 1 ∧
+    (loadCached (invalidate (run (init 10 0) (backOps.take 2)) 210600000000000 210600000000000 [] [])
+      1 33000 43300 200030000000000 200030000000000).2 = .stale ∧
+    ¬ (edgeSec 210600000000000 ≤ edgeSec 200030000000000) := by decide
+
+/-! ### int64 / time.Time arithmetic -/
+
+/-- Precondition under which the model's `Int` arithmetic IS pcache.go's int64 / time.Time arithmetic:
+    clock readings in [0, 2^62] ns (1970..2116), seconds within ±2^40, utcOffset within ±2^31. Then
+    (a) roundTime computed with wrapping int64 operations and lod.go's truncating mathDiv equals the model's;
+    (b) `at + linger`, `now.Add(invalidateFrom)`, its `.Unix()`, `time.Unix(sec,0)` do not overflow;
+    (c) the loop variables of checkInvalidationMapLocked stay in int64;
+    (d) `time.Unix(sec,0).Before(T)` is the nanosecond comparison the model uses;
+    (e) the accounted size stays in int64 (it is bounded by `cache_within_bound`). -/
+theorem int64_preconditions (now tAt loadAt sec f t off : Int) (hnow : ClockOK now) (hat : ClockOK tAt)
+    (hla : ClockOK loadAt) (hsec : SecOK sec) (hf : SecOK f) (ht : SecOK t) (ho : OffOK off) :
+    (∀ st ∈ steps, roundTime64 sec st off = roundTime sec st off ∧ I64 (roundTime sec st off)) ∧
+    I64 (tAt + invalidateLingerNs) ∧ I64 (immutableNs now) ∧ I64 (edgeSec now) ∧ SecOK (edgeSec now) ∧
+    I64 (sec + 62135596800) ∧
+    (∀ st ∈ steps, I64 (roundTime f st off + st) ∧ I64 (roundTime t st off + st) ∧ I64 (t + st) ∧
+      I64 (fromNext (roundTime f st off) st t) ∧ I64 (toPrev (roundTime t st off) f)) ∧
+    (beforeEdge sec now = true ↔
+      (sec < immutableNs now / 1000000000 ∨ (sec = immutableNs now / 1000000000 ∧ 0 < immutableNs now % 1000000000))) := by
+  obtain ⟨c1, c2, c3⟩ := consts_in_range
+  have h := int64_safe now tAt loadAt sec f t 1 off hnow hat hla hsec hf ht (by unfold StepOK; omega) ho c1 c2
+  exact ⟨fun st hst => roundTime64_eq sec st off hsec (c3 st hst) ho, h.1, h.2.1, h.2.2.1, h.2.2.2.1, h.2.2.2.2.1,
+    fun st hst => loop_vars_safe f t st off hf ht (c3 st hst) ho, beforeEdge_lex sec now⟩
+
+theorem size_in_int64 (maxSize off : Int) (N : Nat) (ops : List Op) (hpos : 0 ≤ maxSize)
+    (hm : maxSize ≤ 2305843009213693952) (hN : (N : Int) ≤ 2305843009213693952) (hr : RowsLe ops N) :
+    I64 (load (run (init maxSize off) ops)) ∧ 0 ≤ (run (init maxSize off) ops).size := by
+  have h1 := cache_within_bound maxSize off N ops hpos hr
+  have hacc := run_acc ops _ (init_acc maxSize off)
+  have h2 : 0 ≤ costSum (run (init maxSize off) ops).cache := by
+    generalize (run (init maxSize off) ops).cache = c
+    induction c with
+    | nil => simp [costSum]
+    | cons x r ih => rw [costSum_cons]; have := entryCost_nonneg x; omega
+  have h3 := hacc.sizeGe
+  unfold load at h1 ⊢
+  unfold I64
+  refine ⟨⟨by omega, by omega⟩, by omega⟩
+
+/-- the harness' clocks (Unix nanoseconds around 1.65e18..1.75e18 plus at most days) satisfy the precondition -/
+example : ClockOK 1750000000000000000 ∧ SecOK 1750000000 ∧ OffOK 356400 := by
+  unfold ClockOK SecOK OffOK; omega
+/-- mathDiv on a negative, non-divisible argument: Go gives -7/3 = -2 (truncated), corrected to -3 = floor -/
+example : goMathDiv (-7) 3 = -3 ∧ Int.tdiv (-7) 3 = -2 := by decide
 end SH.C24
